@@ -81,7 +81,7 @@ def make_prop(rng, prob, alg):
         return vs, alg, [v0] + l + u
     if alg == "lexicographic_leq":
         h = rng.randint(1, 2)
-        return pick_vars(rng, nv_, 2 * h), alg, []
+        return pick_vars(rng, nv_, 2 * h + (1 if rng.random() < 0.2 else 0)), alg, []
     if alg in ("max_eq", "max_leq", "min_eq", "min_geq"):
         k = rng.randint(2, min(4, max(2, nv_)))
         return pick_vars(rng, nv_, k), alg, []
